@@ -797,6 +797,9 @@ class Core:
         self.check_header()
 
 
+OWN_MUTATION_ADEQUACY = True   # thorough() below mutates the anchored functions in memory (pathkit.run_mutants)
+
+
 def core(ctx):
     Core(ctx).run()
 
